@@ -102,7 +102,13 @@ def rec_of(data, raw=False, total=False):
 
 
 def plain_rec(data):
-    return sorted([k, rt.enc(v)] for k, v in data.items())
+    out = []
+    for k, v in data.items():
+        if k == "$wrap":
+            out.append([k, 1 if v["step"] == "begin" else 2])
+        else:
+            out.append([k, rt.enc(v)])
+    return sorted(out)
 
 
 def run_overlay(case):
@@ -219,8 +225,14 @@ def to_events(log):
     return events
 
 
+def has_tag2(node):
+    return any(c["tag"] == 2 for c in node["caps"]) or any(has_tag2(k) for k in node["kids"])
+
+
 def run_case(case, mode):
     rt.reset(case["script"])
+    for h in case["handlers"]:
+        h["wrap"] = (mode == "probe" and h["kind"] == "imm" and has_tag2(h["sel"]))
     cms = {"overlay": run_overlay, "probe": run_probe, "api": run_api}[mode](case)
     rt.LOG.append(("env", "catch_f", case.get("arg", 0)))
     outcome = "ok"
